@@ -179,7 +179,10 @@ func isMap(t types.Type) bool   { _, ok := t.Underlying().(*types.Map); return o
 
 // typeKey is a stable printable name of a type used in heap-component keys and tags.
 func typeKey(t types.Type) string {
-	return types.TypeString(t, func(p *types.Package) string { return p.Name() })
+	// full import paths: package names are not unique (sync vs internal/sync)
+	return types.TypeString(t, func(p *types.Package) string {
+		return strings.TrimPrefix(p.Path(), "github.com/Query-farm/vgi-rpc-go/")
+	})
 }
 
 // rangeFact returns the type-range constraint for an integer term (or "true").
